@@ -854,7 +854,7 @@ impl rustc_driver::Callbacks for Facts {
                     v.push(("mir", cx.body(body, did)));
                     extern_bodies.insert(p.clone(), o(v));
                 }
-                let mut add = |tgt: Instance<'tcx>, queue: &mut VecDeque<Instance<'tcx>>, seen: &mut HashMap<Instance<'tcx>, usize>| {
+                let add = |tgt: Instance<'tcx>, queue: &mut VecDeque<Instance<'tcx>>, seen: &mut HashMap<Instance<'tcx>, usize>| {
                     if !seen.contains_key(&tgt) {
                         let n = seen.len();
                         seen.insert(tgt, n);
